@@ -809,12 +809,12 @@ class SamplingMethod(DirectMethod):
         subst_from = []
         subst_to = []
         for offset in offsets.keys():
-            if k==-1 and offset>0:
-                raise IndexError()
-            if k+offset<0:
+            # The final node (k==-1) is node N
+            k_shift = (self.N if k==-1 else k)+offset
+            if k_shift<0 or k_shift>self.N:
                 raise IndexError()
             subst_from.append(vvcat(symbols[offset]))
-            subst_to.append(self._eval_at_control(stage, vvcat(offsets[offset]), k+offset))
+            subst_to.append(self._eval_at_control(stage, vvcat(offsets[offset]), k_shift))
             #print(expr, subst_from, subst_to)
 
 
